@@ -32,6 +32,14 @@ class Infeasible(Exception):
     """path condition became unsatisfiable"""
 
 
+def _mutable_result(v):
+    if isinstance(v, (Arr, Obj, list, dict, set, np.ndarray)):
+        return True
+    if isinstance(v, tuple):
+        return any(_mutable_result(x) for x in v)
+    return False
+
+
 def _memo_decorated(node):
     for d in getattr(node, 'decorator_list', []) or []:
         t = d.func if isinstance(d, ast.Call) else d
@@ -386,9 +394,13 @@ class Exec:
             # the body reads besides its arguments (the mutable global variable object, module state) leaks from earlier calls
             self.memo_stack = getattr(self, 'memo_stack', []) + [q]
             try:
-                return self._call_fn_body(fn, args, kw)
+                res = self._call_fn_body(fn, args, kw)
             finally:
                 self.memo_stack = self.memo_stack[:-1]
+            if _mutable_result(res):
+                # every caller with the same arguments receives the very same mutable object: a write by one is seen by all later ones
+                self.event('memo_mutable_result', q, self.where())
+            return res
         return self._call_fn_body(fn, args, kw)
 
     def _call_fn_body(self, fn, args, kw):
@@ -625,6 +637,7 @@ class Exec:
                 key = (fn.qual(), ls.index(st))
         spec = self.loopspecs.get(key)
         if spec is not None:
+            self.__dict__.setdefault('spec_hits', set()).add(key)
             return spec.run(self, st, env)
         if key is not None and (key[0], None) in self.loopspecs and isinstance(st, ast.For):
             pass
@@ -646,8 +659,16 @@ class Exec:
             else:
                 self.block(st.orelse, env)
             return
-        n = 0
-        while self.truth(self.ev(st.test, env)):
+        n = nsym = 0
+        while True:
+            cv = self.ev(st.test, env)
+            if isz(cv):
+                nsym += 1
+                if nsym > 48:
+                    # a loop whose exit depends on symbolic data needs a contract (invariant); unrolling it forks a path per iteration
+                    raise Unsupported(f'loop {key} has a symbolic exit condition and no invariant (stopped after 48 unrollings)')
+            if not self.truth(cv):
+                break
             n += 1
             if n > self.unroll_limit:
                 raise Unsupported(f'loop {key} does not terminate within {self.unroll_limit} unrollings and has no invariant')
